@@ -133,9 +133,7 @@ def run(ctx) -> None:
                 case = {"kind": kind, "frame": frame.hex(), "id": dev_id, "ts": 86400.0 * (L + 1) * 9.37 + j,
                         "tsb": bytes([L & 0xFF, j, 3, 4, 5, 6, 24, 20]).hex(), "mid": bytes([j, L & 0xFF, 0, 1]).hex(),
                         "magic": ["2000", "2080", "7a80", "0000"][(L + j) % 4], "res": bytes([(L + k) & 0xFF for k in range(12)]).hex()}
-                v = _run_one(ctx, case)
-                if v:
-                    ctx.violation(v[0], case, v[1])
+                ctx.check(case, lambda c: _run_one(ctx, c))
     ctx.sweep("frame length 0..255 x ids x {enc,dec}", n * 2, True)
 
     hexb = lambda s: s.map(lambda b: b.hex())
